@@ -37,7 +37,7 @@ ASSUMPTIONS = [
 TRUSTED = [
     "real-thread schedules are sampled (jitter), not enumerated; all interleavings are covered by the Coq theorems over the model",
 ]
-CONSTS_USED = []
+CONSTS_USED = ['barrier_wait_count']
 
 SHAPES = [("00", "z"), ("00", "v"), ("10", "z"), ("10", "v"), ("01", "z"), ("01", "r"), ("11", "z"), ("11", "r")]
 
